@@ -164,6 +164,16 @@ impl IdMap {
         };
 
         // For now, only persist first label in I2E (backward compat)
+        // The table is addressed as `start + k`. When it grows into its next page and that
+        // page already belongs to another structure, move the table to fresh pages instead
+        // of writing into the foreign page.
+        let (next_page, offset) = i2e_location(start, internal_id as u64)?;
+        let start = if offset == 0 && next_page != start && pager.is_allocated(next_page) {
+            self.relocate_i2e(pager, start, next_page.as_u64() - start.as_u64())?
+        } else {
+            start
+        };
+
         let first_label = labels.first().copied().unwrap_or(0);
         write_i2e_record(
             pager,
@@ -191,6 +201,25 @@ impl IdMap {
     }
 
     /// Add a label to an existing node.
+    fn relocate_i2e(&mut self, pager: &mut Pager, old_start: PageId, used: u64) -> Result<PageId> {
+        let new_start = PageId::new(pager.next_page_id());
+        for i in 0..=used {
+            pager.ensure_allocated(PageId::new(new_start.as_u64() + i))?;
+        }
+        for i in 0..used {
+            let page = pager.read_page(PageId::new(old_start.as_u64() + i))?;
+            pager.write_page(PageId::new(new_start.as_u64() + i), &page)?;
+        }
+        // The copy must be durable before the meta page points at it.
+        pager.sync()?;
+        pager.set_i2e_start_page(Some(new_start))?;
+        self.i2e_start = Some(new_start);
+        for i in 0..used {
+            pager.free_page(PageId::new(old_start.as_u64() + i))?;
+        }
+        Ok(new_start)
+    }
+
     /// Persists a node tombstone in the node table (used when compaction drops the runs
     /// that carried the tombstone).
     pub fn apply_tombstone(&mut self, pager: &mut Pager, internal_id: InternalNodeId) -> Result<()> {
